@@ -28,6 +28,7 @@ fixed = [
  ("C05", find("chooses by the truthiness of c"), "the run-time form of `c ? x : y` jumped on the raw value of c: with c = 2 the result was the error `JMP TRUE invalid on type int` instead of x, with a failing c (unbound variable, 1/0) the false branch was evaluated and its value returned instead of the failure, while the constant-folded form used the truthiness of c and propagated its failure (mirsym target parse_ternary, obligation 'a falsy condition evaluates exactly y; a truthy condition evaluates exactly x; c ? x : y fails when c fails'; confirmed natively on `c ? x : y` with c = 2, x = 3, y = 4)"),
  ("C02", find("lists call arguments in source order"), "the exposed syntax tree held the arguments of every call in reverse source order (`f(x, y)` had exprs [y, x]): the parser collected the argument nodes while walking the arguments backwards for code generation; the SQL translator compensated for a call standing alone but not inside a member chain, where `a.f(x, y)` came out as `f(y, x)` (mirsym targets gram_call, gram_method, gram_call_chain, obligation 'call arguments appear in the tree in source order'; seen natively in the serialized tree of `f ( a , b + c )`)"),
  ("C17", find("call arguments, receivers, macro bodies and f-string"), "identifiers read inside call arguments, call receivers, macro ranges and bodies and f-string expressions were missing from the parameter list: `f(x)`, `a.f(b)`, `xs.map(v, v + z)` and f'{x}' reported no parameters at all (arguments were lowered with into_unresolved_bytecode, check_for_const rebuilt the node with empty details, the f-string branch dropped the details of its embedded expressions), so binding every reported name did not avoid unbound-variable failures (mirsym targets gram_call, gram_method, gram_call_chain, obligation 'every identifier in variable position is a reported parameter'; first pointed out by a seeding sub-agent; confirmed natively: params of `f ( a , b + c )` were [])"),
+ ("C09", find("now() and zero-argument timestamp()"), "`now()` and `timestamp()` were folded at compile time: the compiler runs every call on BindContext::for_compile(), whose function table held the run-time `now` and whose `timestamp` constructor reads the clock when called without arguments, so the compiled (and serialized) program carried the constant `PUSH TimeStamp(<time of compilation>)` and every execution returned that instant (mirsym target c09_clock, obligation 'a callable of the compile-time tables never reads the clock': now() with 0 arguments and timestamp() with 0 arguments call Utc::now; confirmed natively on the bytecode of `now()`)"),
  ("C19", find("never serialized come last"), "a compiled program containing an error constant (e.g. `1 / 0`, `[1, 1 / 0]`) could not be read back from bincode: Serialize wrote CelValue::Err with variant index 15 (17 with protobuf) while Deserialize numbers the non-skipped variants consecutively and expects 14 - `invalid value: integer 15, expected variant index 0 <= i < 15` (mirsym target c19_tags_celvalue, obligation 'index tag of CelValue::Err selects the same variant when read back'; confirmed natively by a bincode round trip)"),
 ]
 p="/verif/known_findings.json"
